@@ -130,7 +130,111 @@ class StreamRun(Case):
         return out
 
     def grid(self, tier, rng):
-        return []
+        tabs = [([1.0, 2.0, 9.0, 3.0], [0, 10, 20, 30]), ([1.0, None, 2.0], [5, 6, 100]), ([4.0], [50]), ([], [])]
+        wins = [(10, 30), (0, 1000), (6, 6), (25, 7)]
+        for vals, times in tabs:
+            for (a, b) in wins:
+                n = len(vals)
+                v = {"n": n, "v": vals, "t": [t_ * 10**9 for t_ in times], "z": [1.5] * n, "lat": [2.5] * n, "lon": [3.5] * n, "start": a, "end": b}
+                yield v
+
+    def conformance(self, T, values):
+        """model-bound stream code on concrete tables vs the real code on numpy / pandas tables: the
+        yielded ContextResults must agree (stream ids, number of CallResults, window mask, every array)"""
+        import numpy as np
+
+        from pyvc import ctx as C
+        from pyvc import replay
+        from pyvc.contract import ConcMk, RealMk
+
+        def conc_arr(a):
+            if isinstance(a, Selection):
+                nb = alg.as_concrete(a.base_n)
+                return [self._cv(a.base_elem(i)) for i in range(nb) if self._cb(a.sel(i)[1])]
+            if isinstance(a, Arr):
+                return [self._cv(a.elem(i)) for i in range(alg.as_concrete(a.n))]
+            return "?"
+
+        c = C.Ctx()
+        c.concrete_mode = True
+        with C.activate(c):
+            e = self.declare(ConcMk(values))
+            try:
+                out, _log, _cfg = self.call(T.module(self.module), e)
+                mres = [(cr.stream_id, len(cr.results), [self._cb(cr.subset_indexes.val(i)) for i in range(e.n)], conc_arr(cr.data), conc_arr(cr.tinp), conc_arr(cr.zinp), conc_arr(cr.lat), conc_arr(cr.lon)) for cr in out]
+            except C.Unsupported:
+                raise
+            except Exception as ex:  # noqa: BLE001
+                mres = ("raise", type(ex).__name__)
+        er = self.declare(RealMk(values))
+        try:
+            rout = self._real_call(er)
+
+            def lst(a):
+                a = np.asarray(a)
+                if a.dtype.kind == "M":
+                    return [int(x) for x in a.astype("datetime64[ns]").astype("int64")]
+                return [None if (isinstance(x, float) and x != x) else x for x in a.tolist()]
+
+            rres = [(cr.stream_id, len(cr.results), [bool(b) for b in np.asarray(cr.subset_indexes).tolist()], lst(cr.data), lst(cr.tinp), lst(cr.zinp), lst(cr.lat), lst(cr.lon)) for cr in rout]
+        except Exception as ex:  # noqa: BLE001
+            rres = ("raise", type(ex).__name__)
+        if mres != rres:
+            return "model %s vs real %s" % (str(mres)[:300], str(rres)[:300])
+        return None
+
+    @staticmethod
+    def _cb(x):
+        x = alg.as_concrete(x) if alg.is_sym(x) else x
+        return bool(x)
+
+    @staticmethod
+    def _cv(p):
+        nan, v = p
+        nan = alg.as_concrete(nan) if alg.is_sym(nan) else nan
+        v = alg.as_concrete(v) if alg.is_sym(v) else v
+        if nan:
+            return None
+        return float(v) if not isinstance(v, int) else v
+
+    def _real_call(self, e):
+        import pandas as pd
+
+        from pyvc import replay
+
+        install_probes()
+        del LOG[:]
+        cfgm = replay.real_module("ioos_qc.config")
+        stm = replay.real_module("ioos_qc.streams")
+
+        class RealTS:
+            pass
+
+        ctxs = []
+        for (w, streams) in SHAPES[self.params["shape"]]:
+            c_ = {"streams": {}}
+            win = {}
+            if w in ("both", "start"):
+                win["starting"] = pd.Timestamp(e.start)
+            if w in ("both", "end"):
+                win["ending"] = pd.Timestamp(e.end)
+            if win:
+                c_["window"] = win
+            for sid, tests in streams.items():
+                c_["streams"][sid] = {"pyvc_probe": {name: dict(params) for name, params in tests}, "no_such_module": {"x": {}}} if self.params["shape"] == "faults" else {"pyvc_probe": {name: dict(params) for name, params in tests}}
+            ctxs.append(c_)
+        config = cfgm.Config({"contexts": ctxs})
+        kind = self.params["stream"]
+        aux = {} if self.params["aux"] == "none" else {"z": e.z, "lat": e.lat, "lon": e.lon}
+        if kind in ("numpy", "numpy-dict"):
+            st = stm.NumpyStream(inp=e.v if kind == "numpy" else {"v": e.v}, time=e.t, **aux)
+            return list(st.run(config))
+        cols = {"time": e.t, "v": e.v}
+        cols.update(aux)
+        df = pd.DataFrame(cols)
+        if self.params.get("index") == "labels":
+            df = df.set_axis([100 - 7 * i for i in range(len(df))])
+        return list(stm.PandasStream(df).run(config))
 
     def canary(self, e, res, k):
         return None
@@ -186,7 +290,9 @@ class StreamRun(Case):
             g["pd"] = _PD
             try:
                 labels = None
-                if self.params.get("index") == "labels":
+                if self.params.get("index") == "labels" and e.mode != "sym":
+                    labels = lambda i: 100 - 7 * i  # noqa: E731
+                elif self.params.get("index") == "labels":
                     lab = z3.Function("row_label", z3.IntSort(), z3.IntSort())
                     labels = lambda i: lab(alg.lift(i))  # noqa: E731
                     a, b = z3.Int("a!lab"), z3.Int("b!lab")
